@@ -186,13 +186,13 @@ def render(hist, info, choices):
             for r in range(n):
                 for c in range(n):
                     vals.append(10 if r == c else (20 if r // 2 == c // 2 else 40))
-            lines.append("dist_add %d %d %d %d %s %s" % (s, x, y, n, " ".join(map(str, objs)), " ".join(map(str, vals))))
+            lines.append("dist_add %d %d %d %d %s %s hwvd%d" % (s, x, y, n, " ".join(map(str, objs)), " ".join(map(str, vals)), i))      # the name is an argument: the same call on a copy and its original adds the same name
         elif op == "dist_remove":
             lines.append("dist_remove %d" % s)
         elif op == "dist_remove_one":
             lines.append("dist_remove_one %d %d" % (s, x))
         elif op == "memattr":
-            lines.append("memattr %d %d %d %d" % (s, x, a[y - 1], 100 + i))
+            lines.append("memattr %d %d %d %d hwva%d" % (s, x, a[y - 1], 100 + i, i))
         elif op == "cpukind":
             lines.append("cpukind %d %s %d %d" % (s, c08.ranges_text(choices[x - 1]), y, z))
         elif op == "cpukind_info":
@@ -243,7 +243,7 @@ def prio_two(sig):
 
 def prio_stores(sig):
     """C05: a successful restrict right after a call that fills a store (what the exporter must refresh) comes first"""
-    if len(sig) >= 2 and sig[-1][0] == "restrict" and sig[-1][2] >= 100:
+    if len(sig) >= 2 and sig[-1][0] == "restrict" and sig[-1][2] % 1000 >= 100:
         return 0          # the restrict cuts into the distances structure added before
     if len(sig) >= 2 and sig[-1][0] == "restrict" and sig[-1][2] != -1 and sig[-2][0] in ("memattr", "cpukind", "cpukind_info"):
         return 0
@@ -256,6 +256,8 @@ def prio_struct(sig):
     """one topology: a restrict that may merge levels (one subtree left) after the tree was reshaped comes first"""
     last = sig[-1]
     if last[0] == "restrict" and last[2] % 100 in (1, 11) and any(x[0] != "restrict" for x in sig[:-1]):
+        return 0
+    if last[0] == "group_ns" and last[2] == 1:          # a Group by nodeset that names a NUMA node left without PU
         return 0
     if last[0] == "restrict" and last[2] != -1:
         return 1
@@ -320,14 +322,20 @@ def run_generic(ctx, two_slots, replay=None):
         frng = random.Random("%s/%s" % (ctx.seed, name))
         scale = (lambda k: max(20, k // 3)) if name in light else (lambda k: k)
         choices = set_choices(info[name])
-        gen = [("MC_TopoOps_gen.tla", mc_module(info[name], choices, rflags))]
+        frflags = rflags
+        if two_slots and not thorough:
+            # quick, two topologies: the BFS to depth 3 has ~400 successors per state with the full argument sets; ten sets and four flag words
+            # keep every class of outcome (refused, nothing removed, one subtree left, by nodeset, empty / infinite / foreign sets)
+            choices = [c for i, c in enumerate(choices) if i < 8 or c in ([(0, -1)], [])]
+            frflags = [0, 6, 8, 9]
+        gen = [("MC_TopoOps_gen.tla", mc_module(info[name], choices, frflags))]
         hists = []
         # BFS: every edge up to 2 (3 with dup) steps; a focused configuration (calls that reshape the tree) goes one call deeper, another one
         # (the calls that fill and empty the stores, with two or three argument combinations each) goes 4 (5 with dup) calls deep
-        confs = [("ops_bfs", 3 if two_slots else 2, "GOpsAll", 15000 if thorough else (800 if two_slots else 500), prio_two if two_slots else None, False)]
+        confs = [("ops_bfs", 3 if two_slots else 2, "GOpsAll", 15000 if thorough else (800 if two_slots else 400), prio_two if two_slots else None, False)]
         if not two_slots:
-            confs.append(("struct_bfs", 3, "GOpsStruct", 15000 if thorough else 400, prio_struct, False))
-            confs.append(("deep_bfs", 4, "GOpsDeep", 8000 if thorough else 300, prio_stores, True))
+            confs.append(("struct_bfs", 3, "GOpsStruct", 15000 if thorough else 300, prio_struct, False))
+            confs.append(("deep_bfs", 4, "GOpsDeep", 8000 if thorough else 200, prio_stores, True))
         elif thorough:
             confs.append(("deep_bfs", 5, "GOpsDeep", 15000, prio_two, True))
         else:
@@ -340,7 +348,15 @@ def run_generic(ctx, two_slots, replay=None):
                 raise vlib.Infra("MC_TopoOps failed for %s (model-level): %s\n%s" % (name, st["error"], out[-2000:]))
             edges = list(vlib.tlc_printed(out, "EDGE"))
             # every single call of the alphabet is always replayed; the longer histories are a seeded sample spread over the call signatures
-            ones = [e["h"] for e in edges if len(e["h"]) == 1] if tag == "ops_bfs" else []
+            ones = []
+            if tag == "ops_bfs":
+                byname = {}
+                for e in edges:
+                    if len(e["h"]) == 1:
+                        byname.setdefault(e["h"][0][0], []).append(e["h"])
+                for nm in sorted(byname):           # calls with many argument combinations (allow, dist_add, group, cpukind): a seeded 40 of them; every restrict
+                    v = byname[nm]
+                    ones += v if (thorough or len(v) <= scale(40) or (nm == "restrict" and name not in light)) else frng.sample(v, scale(40))
             picked, nsig, allsig = stratified([e for e in edges if not (tag == "ops_bfs" and len(e["h"]) == 1)], scale(keep), frng, prio)
             ctx.extra["%s_%s" % (tag, name)] = {"edges": len(edges), "signatures": allsig, "signatures_replayed": nsig, "edges_replayed": len(picked) + len(ones)}
             hists += ones + picked
